@@ -26,15 +26,20 @@ RULE = ('one case = (number of streams 1-3, device script per stream: 1-4 WRTE p
         'W<i>) held 150 ms at a (function, line, hit) reached in a discovery run while the '
         'other threads proceed; stress = seeded yield injection with switch interval 10 us; '
         'device = every merge order of the device messages of two streams for a small script; '
+        'fault = the device withholds the OKAY of host WRTE chunk 0-2 (never / until the '
+        'retries returned / for half the write time-out) while the host retries 1-3 writes, '
+        'optionally with a second writer thread and a reader thread on the same stream; '
         'distinct = distinct (scenario, schedule); non-trivial = all streams were opened and '
         'at least one device WRTE was delivered and judged')
 ASSUMPTIONS = [
     'the device closes a stream only after it received all host bytes of that stream',
     'call time-outs are 6 s; a call that ends by time-out although the device had sent all it waited for is a lost wake-up / deadlock witness',
     'preemption bound 1 (one held thread per schedule) plus seeded stress',
+    'fault cases judge only the device-side count of un-OKAYed WRTEs, chunk sizes and calls that never return; which exception a refused retry raises is not judged',
 ]
 REQUIRED_COUNTERS = ['scenarios_run', 'streams_judged', 'device_wrte_judged',
-                     'acks_judged', 'host_chunks_judged', 'schedules_held']
+                     'acks_judged', 'host_chunks_judged', 'schedules_held',
+                     'fault_runs', 'outstanding_checked', 'writes_refused_or_failed']
 EXHAUSTIVE = {'quick': False, 'thorough': False}
 PLAN = {
     'quick': {'workers': 16, 'budget_s': 60, 'sampled_per_worker': 40,
@@ -86,6 +91,18 @@ def enumerated(tier):
   b = ['B0', 'B1', 'Bc']
   for order in _merges(a, b):
     yield {'k': 'device', 'order': order}
+  # the device withholds one OKAY; the host retries (flow control under faults)
+  n = 0
+  for withhold in (0, 1, 2):
+    for release in ('never', 'after-retries', 'timer'):
+      for retries in (1, 2):
+        for second_writer in (False, True):
+          for reader in (False, True):
+            n += 1
+            yield {'k': 'fault', 'withhold': withhold, 'release': release,
+                   'retries': retries, 'second_writer': second_writer,
+                   'reader': reader, 'timeout_ms': 250, 'yield': False,
+                   'seed': n}
 
 
 def _merges(a, b):
@@ -103,6 +120,13 @@ def _merges(a, b):
 
 def sampled(tier, rng):
   while True:
+    if rng.random() < .25:
+      yield {'k': 'fault', 'withhold': rng.randint(0, 2),
+             'release': rng.choice(['never', 'after-retries', 'timer']),
+             'retries': rng.randint(1, 3), 'second_writer': rng.random() < .5,
+             'reader': rng.random() < .5, 'timeout_ms': rng.choice([60, 250]),
+             'yield': True, 'seed': rng.getrandbits(32)}
+      continue
     yield {'k': 'stress', 'streams': rng.randint(1, 3),
            'seed': rng.getrandbits(32), 'nowrite': rng.random() < .2}
 
@@ -123,8 +147,21 @@ class Device:
     self.problems = []
     self.order = order                    # explicit device message order
     self.pending_order = []
+    self.withhold = {}                    # dest -> index of the host WRTE whose OKAY is withheld
+    self.withheld = []                    # stream dicts with an OKAY owed
+    self.max_outstanding = 0
     self.t.on_host_message = self.on_host
     self.t.feed('CNXN', 0x01000000, MAXDATA, 'device:SER:banner')
+
+  def release_withheld(self):
+    """The device finally acknowledges the WRTE it sat on."""
+    with self.lock:
+      owed, self.withheld = self.withheld, []
+      for st in owed:
+        st['outstanding'] -= 1
+    for st in owed:
+      self.t.feed('OKAY', st['remote'], st['local'], '')
+    return len(owed)
 
   def on_host(self, msg):
     seq, th, cmd, a0, a1, data = msg
@@ -156,8 +193,14 @@ class Device:
           if st['outstanding']:
             self.problems.append(('second WRTE before OKAY', st['dest']))
           st['outstanding'] += 1
+          self.max_outstanding = max(self.max_outstanding, st['outstanding'])
           st['got'].append(data)
           st['chunks'].append(len(data))
+          if self.withhold.get(st['dest']) == len(st['chunks']) - 1:
+            self.withheld.append(st)
+            for f in feeds:
+              self.t.feed(*f)
+            return
           feeds.append(('OKAY', st['remote'], st['local'], ''))
           st['outstanding'] -= 1
           if (self.order is None and not st['clse_sent'] and
@@ -406,6 +449,108 @@ def run_device(case):
   return {'sig': case, 'violations': viol, 'counters': c}
 
 
+def run_fault(case):
+  """The device sits on the OKAY of one host WRTE; the host retries.
+
+  Flow control says a stream never has two unacknowledged WRTEs outstanding,
+  whatever the host code does after a write failed or timed out.  The device
+  counts un-OKAYed WRTEs per stream; verdicts come only from that count (and
+  from a call never returning), not from which exception a retry gets.
+  """
+  ap, exc, eng = _S['ap'], _S['exc'], _S['engine']
+  rng = random.Random(case['seed'])
+  dest = 'svc:0'
+  first = 'F' * rng.choice([1, 10, MAXDATA, MAXDATA + 1, 3 * MAXDATA])
+  nchunks = -(-len(first) // MAXDATA)
+  dev = Device({dest: []}, {dest: 10 ** 9})
+  dev.withhold[dest] = case['withhold'] % nchunks
+  conn = ap.AdbConnection.connect(dev.t, timeout_ms=TIMEOUT_MS)
+  st = conn.open_stream(dest, timeout_ms=TIMEOUT_MS)
+  results = []
+  done = threading.Event()
+
+  def attempt(tag, data, timeout_ms):
+    try:
+      st.write(data, timeout_ms=timeout_ms)
+      results.append((tag, 'ok'))
+    except Exception as e:  # pylint: disable=broad-except
+      results.append((tag, type(e).__name__))
+
+  def host():
+    attempt('first', first, case['timeout_ms'])
+    for i in range(case['retries']):
+      attempt('retry%d' % i, 'R%d' % i + 'r' * rng.randint(0, 2 * MAXDATA),
+              case['timeout_ms'])
+    if case['release'] == 'after-retries':
+      dev.release_withheld()
+      attempt('after-release', 'L' * 5, 1500)
+      attempt('after-release2', 'M' * 5, 1500)
+    done.set()
+
+  ths = [threading.Thread(target=host, name='W0')]
+  if case['second_writer']:
+    def other():
+      for i in range(case['retries'] + 1):
+        attempt('other%d' % i, 'O%d' % i + 'o' * rng.randint(0, MAXDATA),
+                case['timeout_ms'])
+    ths.append(threading.Thread(target=other, name='W1'))
+  if case['reader']:
+    def reader():
+      while not done.is_set():
+        try:
+          st.read(1, timeout_ms=100)
+        except Exception:  # pylint: disable=broad-except
+          if st.is_closed():
+            return
+    ths.append(threading.Thread(target=reader, name='R0'))
+  eng.arm(None, yield_seed=case['seed'] if case['yield'] else None,
+          yield_prob=0.3 if case['yield'] else 0.0)
+  eng.enabled = True
+  old = sys.getswitchinterval()
+  if case['yield']:
+    sys.setswitchinterval(1e-5)
+  timer = None
+  try:
+    if case['release'] == 'timer':
+      timer = threading.Timer(case['timeout_ms'] / 2000.0, dev.release_withheld)
+      timer.start()
+    for t in ths:
+      t.start()
+    for t in ths:
+      t.join(40)
+    hung = [t.name for t in ths if t.is_alive()]
+  finally:
+    eng.release()
+    eng.enabled = False
+    sys.setswitchinterval(old)
+    if timer:
+      timer.cancel()
+    done.set()
+  try:
+    conn.close()
+  except Exception:  # pylint: disable=broad-except
+    pass
+  viol = []
+  ctx = {k: case[k] for k in ('withhold', 'retries', 'release', 'second_writer',
+                               'reader', 'timeout_ms')}
+  ctx['results'] = results[:8]
+  if hung:
+    viol.append({'mechanism': 'host-thread-never-returned',
+                 'detail': dict(ctx, threads=hung)})
+  for p in dev.problems:
+    viol.append({'mechanism': 'device-saw:' + p[0].replace(' ', '-'),
+                 'detail': dict(ctx, problem=p)})
+  sd = next(iter(dev.streams.values()))
+  if any(n > MAXDATA for n in sd['chunks']):
+    viol.append({'mechanism': 'host-chunk-larger-than-maxdata', 'detail': ctx})
+  c = {'fault_runs': 1, 'host_wrte_seen_by_device': len(sd['chunks']),
+       'withheld_okay_runs': 1 if len(sd['chunks']) > dev.withhold[dest] else 0,
+       'writes_refused_or_failed': sum(1 for r in results if r[1] != 'ok'),
+       'writes_ok': sum(1 for r in results if r[1] == 'ok')}
+  c['outstanding_checked'] = len(sd['chunks'])
+  return {'sig': case, 'violations': viol[:4], 'counters': c}
+
+
 def run_case(case):
-  return {'sched': run_sched, 'stress': run_stress, 'device': run_device}[
-      case['k']](case)
+  return {'sched': run_sched, 'stress': run_stress, 'device': run_device,
+          'fault': run_fault}[case['k']](case)
